@@ -34,7 +34,8 @@ type batchSpec struct {
 	Extra      map[string]string
 	Shrink     string
 	Timeout    time.Duration
-	KeepBroken bool // do not drop units that fail to build (C13 judges them)
+	KeepBroken bool     // do not drop units that fail to build (C13 judges them)
+	NoAvoid    []string // avoidance switches to turn off (pinned replays of open findings)
 }
 
 type batchOutcome struct {
@@ -115,9 +116,13 @@ func runBatch(c *core.Ctx, spec *batchSpec) (*batchOutcome, error) {
 		wg.Add(1)
 		go func(sh int) {
 			defer wg.Done()
+			av := c.KF.Avoid()
+			for _, sw := range spec.NoAvoid {
+				delete(av, sw)
+			}
 			cfg := &inner.Config{Checks: spec.Checks, Seed: spec.seed(c), Cases: spec.Cases, Shard: sh, Shards: shards,
 				Report: filepath.Join(dir, fmt.Sprintf("report-%d.json", sh)), Only: spec.Only, OnlyUnit: spec.OnlyUnit,
-				Avoid: c.KF.Avoid(), Extra: spec.Extra, Shrink: spec.Shrink}
+				Avoid: av, Extra: spec.Extra, Shrink: spec.Shrink}
 			cb, _ := json.Marshal(cfg)
 			cpath := filepath.Join(dir, fmt.Sprintf("config-%d.json", sh))
 			_ = os.WriteFile(cpath, cb, 0o644)
@@ -200,6 +205,7 @@ type innerReplay struct {
 	Seed     uint64            `json:"seed"` // config seed the batch ran with
 	Schema   *schema.Schema    `json:"schema"`
 	Extra    map[string]string `json:"extra,omitempty"`
+	NoAvoid  []string          `json:"no_avoid,omitempty"`
 	Observed string            `json:"observed,omitempty"`
 }
 
@@ -247,7 +253,7 @@ func replayInner(c *core.Ctx, doc json.RawMessage) (bool, string, error) {
 		return false, "", err
 	}
 	spec := &batchSpec{Name: "replay", Variant: r.Variant, Schemas: []*schema.Schema{r.Schema}, Param: r.Param, Checks: []string{r.Check},
-		Cases: r.Cases, Shards: 1, Only: r.Schema.ID, OnlyUnit: r.Unit, Seed: r.Seed, Extra: r.Extra}
+		Cases: r.Cases, Shards: 1, Only: r.Schema.ID, OnlyUnit: r.Unit, Seed: r.Seed, Extra: r.Extra, NoAvoid: r.NoAvoid, Shrink: "2s"}
 	out, err := runBatch(c, spec)
 	if err != nil {
 		if ic, ok := err.(*innerCrash); ok {
